@@ -288,6 +288,11 @@ def flatten_extends(
 
         c = flatten_extends(c, extends.class_modification, parent=c.parent)
 
+        if c.type == "__builtin":
+            # Also a class that extends a built-in class indirectly (type T2 = T;
+            # type T = Real) is a built-in class with a __value symbol
+            extended_orig_class.type = c.type
+
         # Imports are not inherited (spec 3.5 sections 5.3.1 and 7.1)
         # extended_orig_class.imports.update(c.imports)
         extended_orig_class.classes.update(c.classes)
